@@ -924,7 +924,7 @@ fn each<F: CKind>(args: &Args) {
     let mut rows = 0u64;
     let mut ops: Vec<String> = ["t", "f", "var", "not_var", "not", "ite", "cofactors", "cofactor_true", "cofactor_false",
         "cof_terminal", "pick_cube_dd", "pick_cube_dd_set", "queries", "obs", "ref", "gc", "add_vars", "add_named_vars",
-        "add_named_vars_iter", "names", "set_var_name", "reorder", "export", "export_named", "export_iter", "import",
+        "add_named_vars_iter", "names", "set_var_name", "reorder", "export", "export_named", "export_iter", "export_named_iter", "import",
         "dot", "dot_iter", "pool", "containing", "invalid"]
         .iter()
         .map(|x| x.to_string())
@@ -992,6 +992,7 @@ fn each<F: CKind>(args: &Args) {
             "export" => drop(s.export_dddmp(&[sa, sx0], false, false)),
             "export_named" => drop(s.export_dddmp(&[sa, sx0], true, false)),
             "export_iter" => drop(s.export_dddmp(&[sa, sx0], false, true)),
+            "export_named_iter" => drop(s.export_dddmp(&[sa, sx0], true, true)),
             "import" => {
                 let (ok, path) = s.export_dddmp(&[sa, sx1], true, false);
                 if ok {
